@@ -204,21 +204,21 @@ def onesCount : Nat → Nat
 decreasing_by omega
 
 inductive StandIn
-  | local (counter : Nat)   -- closedLocalConn{counter atomic.Uint32}
-  | remote                  -- closedRemoteConn
+  | closedLocal (counter : Nat)   -- closedLocalConn{counter atomic.Uint32}
+  | closedRemote                  -- closedRemoteConn
 deriving Repr, DecidableEq
 
 def standInOf : Routing → Option StandIn
-  | .replaceRemote => some .remote
+  | .replaceRemote => some .closedRemote
   | .removeAll => none
-  | .sendAndReplace _ => some (.local 0)
+  | .sendAndReplace _ => some (.closedLocal 0)
 
 /-- `handlePacket`: returns the new state and whether the CONNECTION_CLOSE packet is retransmitted -/
 def StandIn.handlePacket : StandIn → StandIn × Bool
-  | .remote => (.remote, false)
-  | .local c =>
+  | .closedRemote => (.closedRemote, false)
+  | .closedLocal c =>
     let n := (c + 1) % 4294967296
-    (.local n, onesCount n == 1)
+    (.closedLocal n, onesCount n == 1)
 
 /-- feed `k` packets, count the replies -/
 def StandIn.feed : StandIn → Nat → StandIn × Nat
